@@ -72,6 +72,11 @@ def run_variant(src, hier, contract, method, variant, both=False, repo_qual=None
     for h in views.RESET_HOOKS:
         h()
     try:
+        if not src.has_func(qual) and contract.cls:
+            inherited = src.mro_lookup(mod, contract.cls, method)
+            if inherited is not None:
+                qual = inherited
+                res.qual = qual + ' (inherited by %s)' % contract.cls
         fn = src.func(qual)
         res.source_hash = src.source_hash(qual)
         eng = Engine(src, hier, mod)
@@ -82,7 +87,10 @@ def run_variant(src, hier, contract, method, variant, both=False, repo_qual=None
         eng.contract = contract
         st = State()
         env = {}
-        if contract.cls is not None and fn.args.args and fn.args.args[0].arg == 'self':
+        if getattr(contract, 'abstract_self', False):
+            env['self'] = DSRefV(smt.fresh('self_ds', smt.DS))
+            eng.cls = contract.cls
+        elif contract.cls is not None and fn.args.args and fn.args.args[0].arg == 'self':
             oid = eng.new_oid()
             eng.self_oid = oid
             eng.cls = contract.cls
